@@ -123,7 +123,20 @@ def _coherence(ctx) -> None:
             continue
         from ..symx import baseline_functions
         if g.qualname not in baseline_functions():
-            continue                      # a helper introduced later: its stores appear in line in the audited callers' logs
+            # a helper introduced later: its stores appear in line in the logs of the audited functions that call it; called from
+            # anywhere else (or from nowhere the audit sees), its own swaps must be followed by the invalidation themselves
+            from .c01 import reduce_to_callers
+            if not reduce_to_callers(prog, {g.qualname}, set(audited)) - set(audited):
+                continue
+            gi = interp_of(prog, g)
+            bare = [(s_, _followed_by_invalidation(gi, s_, X)) for s_, X, v in _swap_events(gi) if v is not None]
+            bare = [(s_, why) for s_, why in bare if why]
+            ctx.ob("a.vector-coherence", g, "store-then-invalidate", not bare,
+                   "a storage swap in a helper outside the audited writers is followed by _invalidate_fp() on every path",
+                   bare[0][0].node if bare else node,
+                   message=f"{g.qualname} replaces a vector's storage and can leave a previously cached fingerprint in place: "
+                           + (bare[0][1] if bare else ""))
+            continue
         ctx.ob("a.vector-coherence", g, "unexpected-store", False, "", node,
                message=f"{g.qualname} replaces storage outside the audited sites; its memo handling is unknown")
     # _promote: compensated at every call site (or invalidates by itself)
